@@ -21,6 +21,7 @@ class CallMixin:
             k = self.callee_key(x.func)
             self.call_ord[id(x)] = counts.get(k, 0)
             counts[k] = counts.get(k, 0) + 1
+        self.callee_keys = set(counts)
         loops = [x for x in ast.walk(fn) if isinstance(x, (ast.For, ast.While, ast.AsyncFor))]
         loops.sort(key=lambda x: (x.lineno, x.col_offset))
         self.loop_ord = {id(x): i for i, x in enumerate(loops)}
@@ -136,12 +137,24 @@ class CallMixin:
             stb = st.clone()
             for i, a in enumerate(actuals):
                 stb.env[f"arg{i}"] = a
+            for kw in n.keywords:
+                if kw.arg:
+                    stb.env["kw_" + kw.arg] = self.ev(kw.value, st, old)
             if isinstance(f, ast.Attribute):
                 stb.env["recv"] = self.ev(f.value, st, old)
             for i, e in enumerate(sites[key]):
                 g = self.spec(e, stb, self.entry)
                 self.oblige(f"{self.cur}/at[{key}#{cnt}].{i}", "at", st, g, n.lineno)
             self.sites_seen.add(key)
+        oc = self.cur_contract.get("on_call", {})
+        if key in oc and self.resolve(f, st) is None:
+            # ghost update at a call without contract (event recording)
+            for i, a in enumerate(n.args):
+                st.env[f"arg{i}"] = self.ev(a, st, old)
+            for stmt in ast.parse(textwrap.dedent(oc[key])).body:
+                self.ghost_assign(stmt, st)
+            for i in range(len(n.args)):
+                st.env.pop(f"arg{i}", None)
         # ---- builtins
         r = self.builtin_call(n, st, old)
         if r is not None:
